@@ -50,9 +50,8 @@ theorem Inv.editOK_flush {cfg : Cfg} {s : St} {d : Disk} (h : Inv cfg s d) {j : 
   obtain ⟨hvjn, hvsq⟩ : v.jn ≤ jf ∧ v.sq ≤ s.frozenSeq := hlv
   have hcur := hparts.cur
   have hog : outsGrps j = fz := by simp [outsGrps, houts]
-  have hpfall : pf.2.all = fz := f5 pf hpf hpfn
+  obtain ⟨h5a, _, _, _⟩ := f5 pf hpf hpfn
   obtain ⟨hasc, hiss, hlive⟩ := rel_file_facts h.disk hv hpf (by rw [hpfn]; exact hvjn)
-  rw [hpfall] at hasc hiss hlive
   refine ⟨v, hv, ?_⟩
   have hjn0 : e.jn.getD v.jn = s.jcur := by rw [hejn]; rfl
   have hsq0 : e.sq.getD v.sq = s.frozenSeq := by rw [hesq]; rfl
@@ -71,28 +70,22 @@ theorem Inv.editOK_flush {cfg : Cfg} {s : St} {d : Disk} (h : Inv cfg s d) {j : 
     intro p hp hge hlt g hg
     have r1 := holds_some hrun.rel hcur
     have r2 := holds_some r1 hparts.hv0
+    intro hgm
     rcases r2 p hp (Nat.le_trans hmono hge) with h3 | h3 | h3
     · omega
     · rw [h2] at h3
       cases h3
-      rw [f5 p hp rfl] at hg
-      exact hg
-    · rw [h3] at hg; cases hg
+      exact (f5 p hp rfl).2.1 g hg hgm
+    · exact absurd hgm (h3.1 g hg).1
   · rw [hsq0, hog]
     intro g hg
-    refine ⟨f3 g hg, (hiss g hg).1, hasc.recs_ne hg, fun x hx => Or.inr (Or.inr (hlive x hx g hg)),
-      fun x hx => hasc.disj hg hx⟩
+    have hgp := h5a g hg
+    refine ⟨f3 g hg, (hiss g hgp).1, hasc.recs_ne hgp, fun x hx => Or.inr (Or.inr (hlive x hx g hgp)),
+      fun x hx => hasc.disj hgp (h5a x hx)⟩
   · rw [hjn0, hsq0, hog]
     intro p hp hge g hg
     have hpe : p.1 = s.jcur := Nat.le_antisymm (hrun.jmax p hp) hge
-    have hl := hrun.jcur
-    rw [holds_iff] at hl
-    obtain ⟨jf', hjf', hall⟩ := hl
-    have : lookup d.journals p.1 = some p.2 := lookup_of_mem (sorted_nodup h.disk.jsorted) (by cases p; exact hp)
-    rw [hpe, hjf'] at this
-    cases this
-    rw [hall] at hg
-    have := f4 g hg
+    have := f4 p hp hpe g hg
     refine ⟨Nat.le_of_lt this, fun x hx => ?_⟩
     have := f3 x hx
     omega
@@ -198,7 +191,7 @@ theorem Inv.editOK_recovMid {cfg : Cfg} {s : St} {d : Disk} (h : Inv cfg s d) {j
     · rw [ho] at h3
       cases h3
       rw [m1 p hp rfl] at hg
-      exact hg
+      exact fun _ => hg
     · rw [h3] at hg; cases hg
   · rw [hsq0, hog]
     intro g hg
@@ -285,7 +278,7 @@ theorem Inv.editOK_recovFinal {cfg : Cfg} {s : St} {d : Disk} (h : Inv cfg s d) 
         cases h3
         simp only at hmdb
         rw [hmdb.1 p hp rfl] at hg
-        exact hg
+        exact fun _ => hg
     · rw [h3] at hg; cases hg
   · rw [hsq0, hog]
     intro g hg
@@ -438,11 +431,11 @@ theorem Inv.editOK_tr {cfg : Cfg} {s : St} {d : Disk} (h : Inv cfg s d) {j : Job
       have : lookup d.journals p.1 = some p.2 := lookup_of_mem (sorted_nodup h.disk.jsorted) (by cases p; exact hp)
       rw [h3, hjf] at this
       cases this
-      rw [hall, hmem, hw]; rfl
+      exact hall.2.2.2.1 (by rw [hg]; rfl)
     · rcases frozenOK_iff.1 hrun.frozen with ⟨_, h4⟩ | ⟨fz, jf, h4, _⟩
       · rw [h4] at h3; cases h3
       · rw [hfz] at h4; cases h4
-    · exact h3
+    · exact h3.2.1 (by rw [hg]; rfl)
   have hin := hok.inputs
   rw [he] at hin
   have hin : InputsOK s d j e := hin
